@@ -10,7 +10,7 @@ Comparison: peak sets, order, (x,y), sample, channel, values: exact.  Refined po
 crop goes through a float32 perspective solve + bilinear sampling (patch entries off by up to
 2.4e-7) and the points are float32 numbers up to ~10; observed |impl - model| reaches
 1e-5·kappa, kappa = Σ|P|/|ΣP| (1 for a non-negative patch), so a flat 1e-5 would raise false
-alarms.  Tolerance: `5e-5 * max(1, cond)`, `cond = (r+1)·kappa` (>= 10x the observed noise,
+alarms.  Tolerance: `5e-5 * max(1, cond)`, `cond = ((p+1)/2)·kappa` (>= 10x the observed noise,
 <= 1/100 of the effect of any mutation tried); patches with |ΣP| < 1e-3·Σ|P| are knife-edges
 (the code divides by ~0), counted and skipped.
 """
@@ -99,8 +99,8 @@ def gen_case(rng):
     if S * C > 1 and rng.random() < 0.25:  # identical maps in different slots: index mix-ups stay visible
         maps[rng.randrange(S * C)] = [row[:] for row in maps[0]]
     thr = rng.choice(THRS)
-    r = rng.choice([0, 1, 2, 2, 3])
-    return {"S": S, "C": C, "h": h, "w": w, "den": den, "maps": maps, "thr": thr[0], "r": r,
+    p = rng.choice([0, 1, 2, 3, 3, 4, 5, 5, 6, 7, 8])  # integral_patch_size; 0 = refinement None
+    return {"S": S, "C": C, "h": h, "w": w, "den": den, "maps": maps, "thr": thr[0], "p": p,
             "kind": "+".join(sorted(set(kinds))), "shape": shape}
 
 
@@ -141,9 +141,16 @@ class Impl:
         return ("raise",) + r[1:] if r[0] == "raise" else self.canon(r[1])
 
 
+def patch_size(case):
+    """integral_patch_size of a case (0 = no refinement); older replay/corpus files carry r = (p-1)/2"""
+    if "p" in case:
+        return case["p"]
+    return 2 * case["r"] + 1 if case.get("r") else 0
+
+
 def model_line(case, cms):
     flat = [rat(float(x)) for x in cms.flatten().tolist()]
-    return (f"local {rat(thr_rat(case['thr']))} {case['r']} {case['S']} {case['C']} {case['h']} {case['w']} "
+    return (f"local {rat(thr_rat(case['thr']))} {patch_size(case)} {case['S']} {case['C']} {case['h']} {case['w']} "
             + lst(flat))
 
 
@@ -182,15 +189,26 @@ def brute_peaks(np, a, thr32):
     return out
 
 
-def patch_of(np, a, s, c, x, y, r):
+def patch_of(np, a, s, c, x, y, p):
+    """what crop_and_resize samples for a p x p box centred on cell (x,y) (zeros outside the map):
+    the cells for odd p, the mean of the four surrounding cells (half-integer positions) for even p"""
     S, C, h, w = a.shape
-    P = np.zeros((2 * r + 1, 2 * r + 1), dtype=np.float64)
-    for u in range(2 * r + 1):
-        for v in range(2 * r + 1):
-            ii, jj = y - r + u, x - r + v
-            if 0 <= ii < h and 0 <= jj < w:
-                P[u, v] = a[s, c, ii, jj]
+
+    def Z(ii, jj):
+        return float(a[s, c, ii, jj]) if 0 <= ii < h and 0 <= jj < w else 0.0
+
+    P = np.zeros((p, p), dtype=np.float64)
+    m = p // 2
+    for u in range(p):
+        for v in range(p):
+            i0, j0 = y - m + u, x - m + v
+            P[u, v] = Z(i0, j0) if p % 2 else (Z(i0, j0) + Z(i0, j0 + 1) + Z(i0 + 1, j0) + Z(i0 + 1, j0 + 1)) / 4
     return P
+
+
+def is_p1_raise(res, p):
+    """integral_patch_size = 1: kornia's perspective solve of the degenerate box is singular (F-C06p1)"""
+    return p == 1 and bool(res) and res[0] == "raise" and res[1] == "_LinAlgError"
 
 
 def oracle_rough(np, a, thr, got):
@@ -213,17 +231,17 @@ def patch_signatures(P):
     return []
 
 
-def oracle_refine(np, a, rough, refined, r):
+def oracle_refine(np, a, rough, refined, p):
     """count/order/indices/values preserved; each point within half a patch of its cell"""
     if refined and refined[0] == "raise":
-        return f"raised {refined[1:]}", []
-    if [(p[2], p[3], p[4]) for p in rough] != [(p[2], p[3], p[4]) for p in refined]:
+        return f"raised {refined[1:]}", (["patch_size_1"] if is_p1_raise(refined, p) else [])
+    if [(q[2], q[3], q[4]) for q in rough] != [(q[2], q[3], q[4]) for q in refined]:
         return "count/order/indices/values changed by refinement", []
-    half = (2 * r + 1) / 2
+    half = p / 2
     for k, (g, f) in enumerate(zip(rough, refined)):
         dx, dy = f[0] - g[0], f[1] - g[1]
         if not (abs(dx) <= half + 1e-4 and abs(dy) <= half + 1e-4):  # NaN/inf fail too
-            P = patch_of(np, a, g[3], g[4], int(g[0]), int(g[1]), r)
+            P = patch_of(np, a, g[3], g[4], int(g[0]), int(g[1]), p)
             sigs = patch_signatures(P)
             return f"peak #{k} at cell ({g[0]},{g[1]}) moved by ({dx},{dy}), half patch = {half}", sigs
     return None, []
@@ -234,18 +252,18 @@ def run_case(chk, I, case, mline, where="generated"):
     np = I.np
     cms = I.tensor(case)
     a = cms.numpy()
-    thr, r = case["thr"], case["r"]
+    thr, p = case["thr"], patch_size(case)
     model = parse_model(mline)
-    small = {k: case[k] for k in ("S", "C", "h", "w", "den", "maps", "thr", "r")}
+    small = {**{k: case[k] for k in ("S", "C", "h", "w", "den", "maps", "thr")}, "p": p}
 
     rough = I.rough(cms, thr)
     m_rough = [(float(x), float(y), v, s, c) for x, y, v, s, c, _ in model]
     nontrivial = len(m_rough) > 0
     has_neg = bool((a < 0).any())
-    chk.case((case["S"], case["C"], case["h"], case["w"], thr, r, cms.numpy().tobytes()) if nontrivial else None,
-             {"shape": [case["S"], case["C"], case["h"], case["w"]], "thr": thr, "r": r, "kind": case.get("kind"),
+    chk.case((case["S"], case["C"], case["h"], case["w"], thr, p, cms.numpy().tobytes()) if nontrivial else None,
+             {"shape": [case["S"], case["C"], case["h"], case["w"]], "thr": thr, "p": p, "kind": case.get("kind"),
               "n_peaks": len(m_rough)} if nontrivial else None,
-             tags=[f"shape:{case.get('shape', where)}", f"r:{r}", f"peaks:{min(len(m_rough), 5)}{'+' if len(m_rough) >= 5 else ''}",
+             tags=[f"shape:{case.get('shape', where)}", f"p:{p}", f"peaks:{min(len(m_rough), 5)}{'+' if len(m_rough) >= 5 else ''}",
                    "neg" if has_neg else "nonneg"])
     if rough != m_rough:
         chk.disagree("find_local_peaks_rough == Peaks.localPeaksRough", small, str(rough)[:600], str(m_rough)[:600])
@@ -259,10 +277,14 @@ def run_case(chk, I, case, mline, where="generated"):
         why = oracle_rough(np, a, thr, none_ref)
         if why:
             chk.fail(f"C06 fails on find_local_peaks(refinement=None): {why}", small, str(none_ref)[:600])
-    if r == 0 or (rough and rough[0] == "raise"):
+    if p == 0 or (rough and rough[0] == "raise"):
         return
-    p = 2 * r + 1
     refined = I.full(cms, thr, "integral", p)
+    if is_p1_raise(refined, p):
+        # documented behaviour of the pinned tree (finding F-C06p1); the model's value is rough + 0
+        chk.fail("C06: find_local_peaks(integral, integral_patch_size=1) raises inside kornia", small, str(refined),
+                 ["patch_size_1"])
+        return
     if refined and refined[0] == "raise":
         chk.disagree("find_local_peaks(integral) raises where the model does not", small, str(refined), "ok")
         chk.fail("C06: find_local_peaks(integral) raised", small, str(refined))
@@ -272,13 +294,13 @@ def run_case(chk, I, case, mline, where="generated"):
         chk.disagree("find_local_peaks(integral) indices/values == Peaks.localPeaks", small, str(refined)[:600], str(model)[:600])
     else:
         for k, (q, m) in enumerate(zip(refined, model)):
-            P = patch_of(np, a, m[3], m[4], m[0], m[1], r)
+            P = patch_of(np, a, m[3], m[4], m[0], m[1], p)
             z, az = float(P.sum()), float(np.abs(P).sum())
             if m[5] == "inf" or abs(z) < 1e-3 * az:
                 chk.knife_edges += 1
                 chk.tag("knife:patch_sum~0")
                 continue
-            cond = (r + 1) * az / abs(z)
+            cond = (p + 1) / 2 * az / abs(z)
             tol = 5e-5 * max(1.0, cond)
             ex, ey = abs(q[0] - float(m[5][0])), abs(q[1] - float(m[5][1]))
             chk.extra["max_refine_err_over_tol"] = max(chk.extra.get("max_refine_err_over_tol", 0.0), max(ex, ey) / tol)
@@ -287,7 +309,7 @@ def run_case(chk, I, case, mline, where="generated"):
                 chk.disagree("find_local_peaks(integral) points == Peaks.localPeaks (tol)", {**small, "peak": k},
                              [q[0], q[1]], [float(m[5][0]), float(m[5][1])])
                 break
-    why, sigs = oracle_refine(np, a, rough, refined, r)
+    why, sigs = oracle_refine(np, a, rough, refined, p)
     if has_neg:
         chk.extra["excluded_region_cases"] = chk.extra.get("excluded_region_cases", 0) + 1
     if why:
@@ -299,7 +321,7 @@ def witness_case(w):
     m = [[0.0] * wd for _ in range(h)]
     for (x, y, v) in w["cells"]:
         m[y][x] = v
-    return {"S": 1, "C": 1, "h": h, "w": wd, "den": 1, "maps": [m], "thr": w["thr"], "r": (w["patch"] - 1) // 2,
+    return {"S": 1, "C": 1, "h": h, "w": wd, "den": 1, "maps": [m], "thr": w["thr"], "p": w["patch"],
             "kind": "witness", "shape": "witness"}
 
 
@@ -317,9 +339,12 @@ def main(chk: Check):
         cms = I.tensor(case)
         got = I.full(cms, case["thr"], "integral", ent["witness"]["patch"])
         rough = I.rough(cms, case["thr"])
-        why, sigs = oracle_refine(np, cms.numpy(), rough, got, case["r"])
+        why, sigs = oracle_refine(np, cms.numpy(), rough, got, case["p"])
         m = parse_model(run_driver("C06.lean", [model_line(case, cms)])[0])
-        if ent["signature"] == "negative_patch":
+        if ent["signature"] == "patch_size_1":
+            agrees = len(m) == 1 and (is_p1_raise(got, 1) or (len(got) == 1 and m[0][5] not in (None, "inf")
+                                                               and abs(got[0][0] - float(m[0][5][0])) < 1e-3))
+        elif ent["signature"] == "negative_patch":
             agrees = (len(got) == len(m) == 1 and m[0][5] not in (None, "inf")
                       and abs(got[0][0] - float(m[0][5][0])) < 1e-3)
         else:
@@ -337,11 +362,11 @@ def main(chk: Check):
         c.setdefault("kind", "corpus"), c.setdefault("shape", "corpus")
         cases.append(c)
     # fixed regression cases: suite example, plateau, corner peaks, 1x1
-    cases.append({"S": 1, "C": 1, "h": 5, "w": 5, "den": 8, "thr": 0.2, "r": 2, "kind": "fixed", "shape": "fixed",
+    cases.append({"S": 1, "C": 1, "h": 5, "w": 5, "den": 8, "thr": 0.2, "p": 5, "kind": "fixed", "shape": "fixed",
                   "maps": [[[0, 0, 0, 0, 0], [0, 8, 4, 0, 0], [0, 4, 0, 0, 0], [0, 0, 0, 6, 6], [0, 0, 0, 6, 7]]]})
-    cases.append({"S": 1, "C": 2, "h": 1, "w": 1, "den": 8, "thr": 0.0, "r": 1, "kind": "fixed", "shape": "1x1",
+    cases.append({"S": 1, "C": 2, "h": 1, "w": 1, "den": 8, "thr": 0.0, "p": 3, "kind": "fixed", "shape": "1x1",
                   "maps": [[[3]], [[0]]]})
-    cases.append({"S": 2, "C": 1, "h": 3, "w": 3, "den": 8, "thr": 0.125, "r": 1, "kind": "fixed", "shape": "fixed",
+    cases.append({"S": 2, "C": 1, "h": 3, "w": 3, "den": 8, "thr": 0.125, "p": 3, "kind": "fixed", "shape": "fixed",
                   "maps": [[[8, 0, 8], [0, 0, 0], [8, 0, 8]], [[8, 8, 0], [0, 0, 0], [0, 0, 1]]]})
     for _ in range(chk.n(1000, 8000)):
         cases.append(gen_case(rng))
@@ -355,33 +380,31 @@ def main(chk: Check):
     n_off = chk.n(300, 3000)
     pats, plines = [], []
     for _ in range(n_off):
-        r = rng.choice([1, 2, 3])
-        p = 2 * r + 1
+        p = rng.choice([2, 3, 4, 5, 6, 7, 8])
         neg = rng.random() < 0.3
         ints = [rng.randrange(-8 if neg else 0, 9) for _ in range(p * p)]
         if rng.random() < 0.3:
             ints = [v if rng.random() < 0.3 else 0 for v in ints]
-        pats.append((r, ints))
-        plines.append(f"offsets {r} " + lst([rat(Fraction(v, 8)) for v in ints]))
+        pats.append((p, ints))
+        plines.append(f"offsets {p} " + lst([rat(Fraction(v, 8)) for v in ints]))
     pout = run_driver("C06.lean", plines)
-    for (r, ints), m in zip(pats, pout):
-        p = 2 * r + 1
+    for (p, ints), m in zip(pats, pout):
         t = (torch.tensor(ints, dtype=torch.float32) / 8).reshape(1, 1, p, p)
         gv = torch.arange(p, dtype=torch.float32) - ((p - 1) / 2)
         dx, dy = I.pf.integral_regression(t, xv=gv, yv=gv)
         dx, dy = float(dx), float(dy)
         z, az = sum(ints) / 8, sum(abs(v) for v in ints) / 8
-        chk.case(("offsets", r, tuple(ints)) if az > 0 else None, None, tags=["op:offsets"])
+        chk.case(("offsets", p, tuple(ints)) if az > 0 else None, None, tags=["op:offsets"])
         if m == "inf inf" or abs(z) < 1e-3 * az:
             chk.knife_edges += 1
             continue
         mx, my = (float(Fraction(s)) for s in m.split())
-        tol = 5e-5 * max(1.0, (r + 1) * az / abs(z))
+        tol = 5e-5 * max(1.0, (p + 1) / 2 * az / abs(z))
         if not (abs(dx - mx) <= tol and abs(dy - my) <= tol):
-            chk.disagree("integral_regression == Peaks.integralOffsets", {"r": r, "patch_x8": ints}, [dx, dy], [mx, my])
+            chk.disagree("integral_regression == Peaks.integralOffsets", {"p": p, "patch_x8": ints}, [dx, dy], [mx, my])
             if min(ints) >= 0 and not (abs(dx) <= p / 2 and abs(dy) <= p / 2):
                 chk.fail("C06: integral_regression offset exceeds half a patch on a non-negative patch",
-                         {"r": r, "patch_x8": ints}, [dx, dy])
+                         {"p": p, "patch_x8": ints}, [dx, dy])
 
 
 def replay(chk: Check, payload):
@@ -393,7 +416,7 @@ def replay(chk: Check, payload):
         return
     case.setdefault("kind", "replay"), case.setdefault("shape", "replay")
     m = run_driver("C06.lean", [model_line(case, I.tensor(case))])[0]
-    print(f"replay case={ {k: case[k] for k in ('S', 'C', 'h', 'w', 'thr', 'r')} } model={m[:300]}")
+    print(f"replay case={ {k: case[k] for k in ('S', 'C', 'h', 'w', 'thr')} } p={patch_size(case)} model={m[:300]}")
     run_case(chk, I, case, m, where="replay")
 
 
@@ -405,17 +428,17 @@ if __name__ == "__main__":
             "Lean 4.33 kernel; axioms ⊆ {propext, Classical.choice, Quot.sound} (audited per run)",
             "hand-written model Peaks.lean of find_local_peaks_rough / find_local_peaks / integral_regression; tied to "
             "/repo by exact comparison (sets, order, indices, values) and 5e-5·cond comparison (refined points) on the explored maps only",
-            "kornia dilation (geodesic border, max_val=1e4) and crop_and_resize (unit sampling at integer offsets, zero padding) "
-            "for odd patch sizes: modelled, validated by the correspondence",
+            "kornia dilation (geodesic border, max_val=1e4) and crop_and_resize (align_corners sampling at c-(p-1)/2+k: cells for odd p, "
+            "bilinear mean of four cells for even p; zero padding): modelled, validated by the correspondence",
             "float32 comparisons on dyadic map values (k/8, k/16, |v| ≤ 1) coincide with comparisons of the rationals they denote",
         ],
         rule="S,C in 1..3, maps 1x1 / 1xN / Nx1 / up to 10x10 on the 1/8 or 1/16 lattice (few-level random fields = many ties, plateaus, "
              "sparse border/corner peaks, quantised Gaussian bumps, each with and without negative values; duplicate maps across slots), "
-             "7 thresholds incl. negative and -1e4, patch 3/5/7 or none; distinct = distinct (shape, thr, patch, map bytes) with >= 1 peak; "
+             "7 thresholds incl. negative and -1e4, integral_patch_size 1..8 (odd and even) or none; distinct = distinct (shape, thr, patch, map bytes) with >= 1 peak; "
              "trivial = no peak; plus raw patches through integral_regression",
         assumptions=[
-            "finite maps; threshold >= -1e4 (kornia's border constant); odd integral_patch_size >= 3 "
-            "(p = 1 makes kornia's perspective solve singular and the code raises; even p samples half-integer positions: both outside the model)",
+            "finite maps; threshold >= -1e4 (kornia's border constant); integral_patch_size 1..8: odd p reads cells, even p reads "
+            "means of four cells (half-integer sampling), both modelled; p = 1 raises inside kornia (F-C06p1) where the model gives offset 0",
             "refinement bound is proved for non-negative patches with positive sum only (F-C06); negative patches are sampled "
             "every run with the property oracle (excluded_region_cases) — search, not proof",
         ],
